@@ -123,6 +123,19 @@ Theorem C19_linker_tables (st it ii : bool) (l : flinker) (ix : fmodel -> pindex
 Proof. exact (linker_tables_full st it ii l ix). Qed.
 Print Assumptions C19_linker_tables.
 
+(* without the name guard (submodel keys are dict keys, hence distinct): exactly what is returned — the entry under the
+   linker's name holds the table of the submodel keyed like the linker if there is one (the linker's own table is lost),
+   else the linker's; the other submodels follow in order under their keys *)
+Theorem C19_linker_tables_general (st it ii : bool) (tab : fmodel -> table) (l : flinker) :
+  NoDup (map fst (lsubs l)) ->
+  model_to_table st it ii (lmodel l) = TOk (tab (lmodel l)) ->
+  (forall k m, In (k, m) (lsubs l) -> model_to_table st it ii m = TOk (tab m)) ->
+  linker_to_tables st it ii l
+  = TOk ((lname l, tab (match lookup_cell (lname l) (lsubs l) with Some m => m | None => lmodel l end))
+         :: map (fun km => (fst km, tab (snd km))) (filter (fun km => negb (cell_eqb (fst km) (lname l))) (lsubs l))).
+Proof. exact (linker_to_tables_general st it ii tab l). Qed.
+Print Assumptions C19_linker_tables_general.
+
 (* a submodel keyed like the linker (the default name is '_'): the linker's own table is overwritten — as many tables as
    submodels, none of them the linker's *)
 Theorem C19_linker_name_clash_refuted :
@@ -250,6 +263,14 @@ Theorem C19_symbols_roundtrip (ss : list symbol) :
   tbind (symbols_to_table ss) table_to_symbols = TOk ss.
 Proof. exact (symbols_roundtrip_ok ss). Qed.
 Print Assumptions C19_symbols_roundtrip.
+
+(* a simpler sufficient guard: every lag / lead is None or an integer of magnitude <= 2^53 (all realistic models) *)
+Theorem C19_symbols_roundtrip_small (ss : list symbol) :
+  forallb (fun s => (match slags s with None => true | Some (IInt z) => Z.abs z <=? 9007199254740992 | Some (IStr _) => false end)
+                    && (match sleads s with None => true | Some (IInt z) => Z.abs z <=? 9007199254740992 | Some (IStr _) => false end)) ss = true ->
+  tbind (symbols_to_table ss) table_to_symbols = TOk ss.
+Proof. exact (symbols_roundtrip_small ss). Qed.
+Print Assumptions C19_symbols_roundtrip_small.
 
 (* shape of symbols_to_dataframe for a non-empty list: a RangeIndex 0..n-1 and exactly the six Symbol fields as columns in
    field order, whose cells the converters of dataframe_to_symbols map back to the fields *)
